@@ -5,6 +5,7 @@ import (
 	"time"
 
 	"github.com/karagenc/socket.io-go/internal/sync"
+	"github.com/karagenc/socket.io-go/internal/verifhook"
 
 	"github.com/karagenc/socket.io-go/engine.io/parser"
 	"github.com/karagenc/socket.io-go/engine.io/transport"
@@ -106,6 +107,7 @@ func (s *serverSocket) upgradeTo(t ServerTransport, c *transport.Callbacks) {
 	s.debug.Log("UpgradeTo", t.Name())
 
 	c.Set(s.onPacket, s.onTransportClose)
+	verifhook.Point("eio.serverSocket.upgradeTo:before-swap")
 
 	s.transportMu.Lock()
 	defer s.transportMu.Unlock()
